@@ -46,7 +46,7 @@ func (o O) String() string {
 
 type Effect struct {
 	Pos    token.Pos
-	Kind   string // store.val store.ptr store-elem map-update delete append-into copy-into sort call:<name> store-global
+	Kind   string // store.val store.ptr store.struct store-elem map-update delete append-into copy-into sort call:<name> store-global
 	Target O
 	Value  O
 	Fn     *ssa.Function // innermost function containing the instruction
@@ -688,6 +688,10 @@ func (a *E3) transfer(fn *ssa.Function, instr ssa.Instruction) {
 		case *ssa.Global:
 			a.effect(fn, x, "store-global", oUSER, v)
 		default:
+			if _, isAlloc := x.Addr.(*ssa.Alloc); !isAlloc && a.isContainerPtr(x.Addr.Type()) {
+				// *c = <struct>: spine and registered ego of an existing container overwritten at once
+				a.effect(fn, x, "store.struct", a.get(x.Addr)&oROOTS, v)
+			}
 			a.addCell(a.cellOf(x.Addr), v)
 		}
 	case *ssa.MapUpdate:
